@@ -597,6 +597,23 @@ func (vc *VC) callByContract(st *State, spec *FuncSpec, callee *types.Func, sig 
 			}
 		} else {
 			vc.havocAll(st)
+			if len(spec.Keeps) > 0 {
+				keep := vc.evalWriteTargets(&SpecEnv{vc: vc, st: pre, old: pre, vars: vars, pkg: cpkg}, spec.Keeps)
+				var hs []string
+				for h := range keep {
+					hs = append(hs, h)
+				}
+				sort.Strings(hs)
+				for _, h := range hs {
+					oldH := vc.heapGet(pre, h, vc.heapSort[h], vc.heapElemT[h])
+					newH := vc.heapGet(st, h, vc.heapSort[h], vc.heapElemT[h])
+					if oldH.S == newH.S {
+						continue
+					}
+					st.assume(fmt.Sprintf("(forall ((r!f Int)) (! (=> %s (= (select %s r!f) (select %s r!f))) :pattern ((select %s r!f))))", or(keep[h]...), newH.S, oldH.S, newH.S))
+				}
+				vc.note("assumed: " + spec.Key + " leaves " + clauseTexts(spec.Keeps) + " unchanged (`keeps` clause of an otherwise frameless contract)")
+			}
 		}
 	} else if spec.Opts["allocates"] != "" || true {
 		// pure functions may still allocate (results can be fresh objects)
@@ -884,6 +901,11 @@ func (vc *VC) evalWriteTarget(env *SpecEnv, e ast.Expr, text string, add func(h,
 					}
 				}
 				vc.heapGet(env.st, hn, hs, shapeT)
+				if len(ce.Args) == 1 {
+					// ghost(name): the ghost state of every object
+					addCond(hn, "true")
+					return
+				}
 				x := env.eval(ce.Args[1])
 				if x.Sort == "Iface" {
 					add(hn, "(ipay "+x.S+")")
@@ -1408,4 +1430,12 @@ func (vc *VC) looksPure(callee *types.Func, sig *types.Signature, recv *Term) bo
 		}
 	}
 	return true
+}
+
+func clauseTexts(cs []*Clause) string {
+	var ts []string
+	for _, c := range cs {
+		ts = append(ts, c.Text)
+	}
+	return strings.Join(ts, ", ")
 }
